@@ -113,7 +113,8 @@ def run_case(s):
             n2 = norm(wntr.network.to_dict(wn2), demandless)
         except Exception as e:  # noqa
             import traceback
-            viol.append({"key": "%s:crash:%s" % (tag, type(e).__name__), "what": "%s raised %s: %s" % (tag, type(e).__name__, str(e)[:150]),
+            fn = traceback.extract_tb(e.__traceback__)[-1].name        # innermost function: a narrow, stable class
+            viol.append({"key": "%s:crash:%s:%s" % (tag, type(e).__name__, fn), "what": "%s raised %s in %s: %s" % (tag, type(e).__name__, fn, str(e)[:150]),
                          "detail": traceback.format_exc()[-1200:]})
             return None
         r = first_diff(n0, n2)
